@@ -47,26 +47,54 @@ def closure_seq(kinds, label: str):
     return True if r is None else r
 
 
+VOCQ = [M.TEXT, M.BGROUP, M.EGROUP, M.BREPEAT_COUNT, M.EREPEAT, M.SELECT_OTHER, M.TRIGGERED]
+
+
 def c02_seq3(k0: int, i1: int, i2: int, l0: int, l1: int) -> bool:
     """
-    vpre: 0 <= i1 <= 11 and 0 <= i2 <= 11
+    vpre: 0 <= i1 <= 6 and 0 <= i2 <= 6
     vpre: 33 <= l0 <= 126 and l0 != 36 and 33 <= l1 <= 126 and l1 != 36
     vpost: _ == True
     """
-    return closure_seq([M.TEXT, k0, VOC[i1], VOC[i2]], S(l0, l1))
+    return closure_seq([M.TEXT, k0, VOCQ[i1], VOCQ[i2]], S(l0, l1))
 
 
 specialise(
     "C02",
     "a.closure-seq",
     c02_seq3,
-    {"k0": VOC},
-    timeout=600,
+    {"k0": VOCQ},
+    timeout=500,
     kernel=K,
     shims=("S1", "S2", "S3", "S4"),
-    symbolic="two row kinds over a 12-kind vocabulary (text, calculate, begin/end group, begin/end repeat, select or_other, repeat with literal count, dynamic default, triggered calculate, table-list group, select_one) and a 2-character label tracer",
-    bounds="row 0 is a text question (trigger source), row 1 kind fixed per instance, rows 2-3 symbolic: all 12^3 sequences of length 3 after the first row",
-    weight=200,
+    symbolic="two row kinds over a 7-kind vocabulary (text, begin/end group, repeat with literal count (_count helper), end repeat, select or_other (_other helper), triggered calculate) and a 2-character label tracer",
+    bounds="row 0 is a text question (trigger source), row 1 kind fixed per instance, rows 2-3 symbolic: all 7^3 sequences after the first row",
+    weight=150,
+)
+
+
+def c02_seq3full(k0: int, k1: int, i2: int, l0: int, l1: int) -> bool:
+    """
+    vpre: 0 <= i2 <= 11
+    vpre: 33 <= l0 <= 126 and l0 != 36 and 33 <= l1 <= 126 and l1 != 36
+    vpost: _ == True
+    """
+    return closure_seq([M.TEXT, k0, k1, VOC[i2]], S(l0, l1))
+
+
+specialise(
+    "C02",
+    "a.closure-seq-full",
+    c02_seq3full,
+    {"k0": VOC, "k1": VOC},
+    reach_if=lambda fx: fx["k1"] == M.TEXT,
+    tiers=("thorough",),
+    timeout=400,
+    kernel=K,
+    shims=("S1", "S2", "S3", "S4"),
+    symbolic="one row kind over the 12-kind vocabulary (text, calculate, begin/end group, begin/end repeat, select or_other, repeat with literal count, dynamic default, triggered calculate, table-list group, select_one) and a 2-character label tracer",
+    bounds="rows 1-2 fixed per instance: all 12^3 sequences of length 3 after the first text row",
+    weight=60,
 )
 
 
@@ -109,6 +137,13 @@ def _mk_layout(shape: int, names):
     return s, paths
 
 
+def _child_named_at(parent, idx, name):
+    kids = [c for c in child_elements(parent) if not M.is_template(c)]
+    if idx >= len(kids):
+        return None
+    return kids[idx] if kids[idx].tagName == name else None
+
+
 def c02_names(shape: int, a0: int, a1: int, b0: int, b1: int, c0: int, c1: int, d0: int, d1: int) -> bool:
     """
     vpre: (97 <= a0 <= 122 or a0 == 95) and (97 <= a1 <= 122 or 48 <= a1 <= 57 or a1 == 45 or a1 == 46)
@@ -125,11 +160,15 @@ def c02_names(shape: int, a0: int, a1: int, b0: int, b1: int, c0: int, c1: int, 
         if el.get_xpath() != "/data/" + "/".join(segs):
             return False
     inst = s.xml_instance()
-    for el, segs in paths.items():
-        hits = M.resolve(inst, "/data/" + "/".join(segs))
-        if len(hits) != 1:
-            return False
-    # binds and controls carry exactly the element's path
+    # positional walk: the node of every element sits where the sheet nesting puts it
+    POS = {0: {(0,): 0, (0, 1): 0, (0, 1, 2): 0, (3,): 1}, 1: {(0,): 0, (0, 1): 0, (0, 1, 2): 0, (0, 3): 1}, 2: {(0,): 0, (0, 1): 0, (2,): 1, (2, 3): 0}}[shape]
+    for idxs, pos in POS.items():
+        cur = inst
+        for j, ni in enumerate(idxs):
+            want_pos = pos if j == len(idxs) - 1 else POS[idxs[: j + 1]]
+            cur = _child_named_at(cur, want_pos, names[ni])
+            if cur is None:
+                return False
     shims.s3_prefill_xpath(s)
     if s._xpath is None:
         s._setup_xpath_dictionary()
@@ -149,7 +188,7 @@ specialise(
     "b.names",
     c02_names,
     {"shape": [0, 1, 2]},
-    timeout=600,
+    timeout=500,
     kernel=K,
     shims=("S1", "S2", "S3", "S4"),
     symbolic="4 element names of 2 symbolic characters over [a-z_][a-z0-9.-], pairwise distinct",
@@ -161,21 +200,12 @@ specialise(
 # ---- c: ambiguity rejected --------------------------------------------------------------
 
 
-@ob(
-    "C02",
-    "c.ambiguity",
-    timeout=300,
-    kernel=("pyxform.section:Section._validate_uniqueness_of_element_names", "pyxform.section:Section.validate", "pyxform.survey:Survey.validate"),
-    shims=("S1", "S2", "S4"),
-    symbolic="two sibling names of 2 symbolic letters (upper/lower case)",
-    bounds="names length 2 over [A-Za-z]; siblings directly under the root or under one group (boolean)",
-    weight=60,
-)
-def c02_ambiguity(in_group: bool, a0: int, a1: int, b0: int, b1: int) -> bool:
+def c02_ambiguity(in_group: bool, between: int, a0: int, a1: int, b0: int, b1: int) -> bool:
     """
-    pre: (65 <= a0 <= 90 or 97 <= a0 <= 122) and (65 <= a1 <= 90 or 97 <= a1 <= 122)
-    pre: (65 <= b0 <= 90 or 97 <= b0 <= 122) and (65 <= b1 <= 90 or 97 <= b1 <= 122)
-    post: _ == True
+    vpre: 0 <= between <= 2
+    vpre: (65 <= a0 <= 90 or 97 <= a0 <= 122) and (65 <= a1 <= 90 or 97 <= a1 <= 122)
+    vpre: (65 <= b0 <= 90 or 97 <= b0 <= 122) and (65 <= b1 <= 90 or 97 <= b1 <= 122)
+    vpost: _ == True
     """
     A, B = S(a0, a1), S(b0, b1)
     s = Survey(name="data", id_string="x", title="x")
@@ -184,6 +214,9 @@ def c02_ambiguity(in_group: bool, a0: int, a1: int, b0: int, b1: int) -> bool:
         parent = GroupedSection(name="grp", type="group", label="L")
         s.add_child(parent)
     parent.add_child(InputQuestion(name=A, type="text", label="L"))
+    # 0-2 unrelated siblings between the two candidates (names cannot clash: they contain digits)
+    for i in range(between):
+        parent.add_child(InputQuestion(name=f"z{i}9", type="text", label="L"))
     parent.add_child(InputQuestion(name=B, type="text", label="L"))
 
     def low(c):
@@ -195,6 +228,20 @@ def c02_ambiguity(in_group: bool, a0: int, a1: int, b0: int, b1: int) -> bool:
     except PyXFormError:
         return same
     return not same
+
+
+specialise(
+    "C02",
+    "c.ambiguity",
+    c02_ambiguity,
+    {"in_group": [False, True]},
+    timeout=400,
+    kernel=("pyxform.section:Section._validate_uniqueness_of_element_names", "pyxform.section:Section.validate", "pyxform.survey:Survey.validate"),
+    shims=("S1", "S2", "S4"),
+    symbolic="two sibling names of 2 symbolic letters (upper/lower case) and the number (0-2) of unrelated siblings placed between them",
+    bounds="names length 2 over [A-Za-z]; siblings directly under the root or under one group (fixed per instance)",
+    weight=80,
+)
 
 
 # ---- d: re-parenting history ------------------------------------------------------------
